@@ -243,7 +243,7 @@ func (c *nsCase) boot(img *image) (*nsNode, []uint64) {
 	var r res
 	select {
 	case r = <-ch:
-	case <-time.After(5 * time.Second):
+	case <-time.After(2 * time.Second):
 		nn.node = &node{logs: img.logs, stable: img.stable, snaps: img.snaps}
 		return nn, []uint64{4} // blocks
 	}
@@ -286,6 +286,9 @@ func (n *nsNode) expectedFSM(from, to uint64) int {
 
 // wait until the FSM goroutine has consumed what processLogs handed over
 func (n *nsNode) waitFSM(oldApplied uint64, boot bool) {
+	if oldApplied == ^uint64(0) {
+		return
+	}
 	st := n.r.VerifNodeState()
 	from := oldApplied
 	if boot {
@@ -537,7 +540,9 @@ func nsExec(in []uint64) (obs []uint64, info map[string]int) {
 				rr := r.(*raft.InstallSnapshotResponse)
 				return []uint64{rr.Term, b2u(rr.Success), b2u(err != nil)}
 			})
-			finish(resp, pan, cut, old)
+			_ = old
+			// the FSM restore is synchronous: nothing to wait for
+			finish(resp, pan, cut, ^uint64(0))
 		case 5:
 			p++
 			readTail()
